@@ -323,7 +323,10 @@ EXTENDED = {
            "with an Ellipsis; repeated / equal / distinct index operands on axes of different lengths.",
     "C03": "Extended: exhaustive 1-d slice shapes, exhaustive index forms (ints, slices, index arrays, Ellipsis; 13 563 tuples), "
            "API-table shapes with boundary constructor arguments, n-ary dtype inference over all ordered dtype triples "
-           "(concatenate/stack/einsum/where/maximum/minimum, 16 464 cases), axis tuples with mixed signs and duplicates.",
+           "(concatenate/stack/einsum/where/maximum/minimum, 16 464 cases), axis tuples with mixed signs and duplicates; "
+           "matmul/dot/vdot/pad shape rules proved equal to NumPy's documented rules for every rank (matmul_eq_spec, dot_eq_spec, "
+           "vdot_eq_spec, matmul_refuses_stretched_contraction, pad_accepts_iff, pad_shape) and tied to the code on all shape pairs "
+           "of rank 0..3 over lengths {0,1,3}; degenerate shortcuts x invalid arguments.",
     "C04": "Extended: argument spellings (dtype as class/string/np.dtype, numpy integers of every width): equal, same hash, one key; "
            "length mutants of every variadic field.",
     "C05": "Extended: reference taken from the graph as built; repeated operands for every multi-operand kind; overlapping views of "
